@@ -1,4 +1,14 @@
 import Rtsp.Props.C06
+#print axioms Rtsp.Codec.SimpleAudio.c06_one_packet
+#print axioms Rtsp.Codec.SimpleAudio.c06_seq_consecutive
+#print axioms Rtsp.Codec.SimpleAudio.c06_seq_many
+#print axioms Rtsp.Codec.SimpleAudio.c06_pt_ssrc
+#print axioms Rtsp.Codec.Lpcm.c06_payload_le
+#print axioms Rtsp.Codec.Lpcm.c06_seq_consecutive
+#print axioms Rtsp.Codec.Lpcm.c06_seq_many
+#print axioms Rtsp.Codec.Lpcm.c06_pt_ssrc
+#print axioms Rtsp.Codec.Lpcm.c06_no_marker
+#print axioms Rtsp.Codec.Lpcm.c06_sample_aligned
 #print axioms Rtsp.Codec.Fragmented.c06_payload_le
 #print axioms Rtsp.Codec.Fragmented.c06_seq_consecutive
 #print axioms Rtsp.Codec.Fragmented.c06_seq_many
